@@ -363,6 +363,9 @@ class DefaultArray(Packer):
         Unpack a list of items from the known ``array`` format.
         """
         str_length = unpack_from(self.length_format, data, offset)[0] * self.base
+        if offset + self.length_size + str_length > len(data):
+            msg = f"Declared length {str_length} exceeds the remaining {len(data) - offset - self.length_size} bytes"
+            raise PackError(msg)
         a = array(self.real_format_str)
         a.frombytes(data[offset + self.length_size: offset + self.length_size + str_length])
         unpack_list.append([bool(b) for b in a] if self.format_str == "?" else list(a))
